@@ -238,6 +238,80 @@ def check_wme(pr, cr):
             acc("error", one(("nan",)), m)
 
 
+def check_wme_modular(pr, cr):
+    """WeightedMeanWithError::add / merge with WeightedMean::{add,merge} and Variance::{add,merge} replaced by their
+    CONTRACTS (rep in, rep out) instead of their bodies: the composite estimator is proved from the contracts of its parts."""
+    import backends
+    x, w = T.sym("x"), T.sym("w")
+
+    def wm_eq(a, b):
+        return all(a[k] == b[k] or backends.sympy_equal(a[k], b[k]) for k in ("weight_sum", "weighted_avg"))
+
+    def run_case(label, fname, op, Pa, Sa, Pb=None, Sb=None):
+        used = []
+
+        def wm_add(ex, recv, args):
+            if wm_eq(recv, wm_state(cr, Sa, True, "")):
+                recv.update(wm_state(cr, Sa.push(args[0], args[1]), True, ""))
+                used.append("WeightedMean::add")
+            else:
+                ex.oblige("callee_requires", FALSE, None, "requires of WeightedMean::add")
+            return ()
+
+        def var_add(ex, recv, args):
+            if mr.states_equal(recv, mr.rep_state(cr, "Variance", Pa, "")):
+                recv.clear()
+                recv.update(mr.rep_state(cr, "Variance", Pa.push(args[0]), ""))
+                used.append("<Variance as Estimate>::add")
+            else:
+                ex.oblige("callee_requires", FALSE, None, "requires of Variance::add")
+            return ()
+
+        def wm_merge(ex, recv, args):
+            o = ex.deref(args[0]) if isinstance(args[0], Ref) else args[0]
+            if wm_eq(recv, wm_state(cr, Sa, True, "a")) and wm_eq(o, wm_state(cr, Sb, True, "b")):
+                recv.update(wm_state(cr, Sa.plus(Sb), True, ""))
+                used.append("<WeightedMean as Merge>::merge")
+            else:
+                ex.oblige("callee_requires", FALSE, None, "requires of WeightedMean::merge")
+            return ()
+
+        def var_merge(ex, recv, args):
+            o = ex.deref(args[0]) if isinstance(args[0], Ref) else args[0]
+            if mr.states_equal(recv, mr.rep_state(cr, "Variance", Pa, "a")) and mr.states_equal(o, mr.rep_state(cr, "Variance", Pb, "b")):
+                recv.clear()
+                recv.update(mr.rep_state(cr, "Variance", Pa.plus(Pb), ""))
+                used.append("<Variance as Merge>::merge")
+            else:
+                ex.oblige("callee_requires", FALSE, None, "requires of Variance::merge")
+            return ()
+        ex = Exec(cr)
+        if op == "add":
+            ex.contracts = {("WeightedMean", "add"): wm_add, ("Variance", "add"): var_add}
+            hyps = [Pa.n.ge(1), Pa.n.lt(NMAX), Sa.W.gt(0), w.ge(0)]
+            paths = ex.run(lambda: ({"self": wme_state(cr, Pa, Sa, "pos", "")}, list(hyps)),
+                           lambda e, r: e.call("WeightedMeanWithError", "add", r["self"], [x, w]))
+            Pp, Sp = Pa.push(x), Sa.push(x, w)
+        else:
+            ex.contracts = {("WeightedMean", "merge"): wm_merge, ("Variance", "merge"): var_merge}
+            hyps = [Pa.n.ge(1), Pa.n.lt(NMAX), Sa.W.gt(0), Pb.n.ge(1), Pb.n.lt(NMAX), Sb.W.gt(0)]
+            paths = ex.run(lambda: ({"self": wme_state(cr, Pa, Sa, "pos", "a"), "other": wme_state(cr, Pb, Sb, "pos", "b")}, list(hyps)),
+                           lambda e, r: e.call("WeightedMeanWithError", "merge", r["self"], [Ref(r["other"])]))
+            Pp, Sp = Pa.plus(Pb), Sa.plus(Sb)
+        pre = "WeightedMeanWithError.%s[%s].via_contracts_of_parts" % (op, label)
+        pr.no_panic(pre + ".no_panic", fname, paths)
+        pr.sides(pre, fname, paths)
+        pr.holds(pre + ".callee_contracts_applied", fname, [], TRUE if len(set(used)) == 2 else FALSE)
+        for p in paths:
+            if not p.panic:
+                wme_compare(pr, pre, fname, p, Pp, Sp, True, {"case": pre, "modular": True})
+    tag = lambda t: (PowerSums.symbolic(t, 2), WSum.symbolic(t))
+    Pa, Sa = tag("")
+    run_case("n>=1,W>0", F + "::WeightedMeanWithError::add", "add", Pa, Sa)
+    (Pa, Sa), (Pb, Sb) = tag("a"), tag("b")
+    run_case("n>=1,W>0|n>=1,W>0", F + "::<WeightedMeanWithError as Merge>::merge", "merge", Pa, Sa, Pb, Sb)
+
+
 def sample_variance_obligations(pr):
     """C10: WeightedMeanWithError::sample_variance = population variance * n/(n-1)."""
     cr = load()
@@ -254,6 +328,7 @@ def run(tier, seed):
     cr = load()
     check_wm(pr, cr)
     check_wme(pr, cr)
+    check_wme_modular(pr, cr)
     obs = pr.obs
     obs += vl.run_lemmas("C08", ["lemma_fold", "merge_tree", "concat"])
     meta = {
@@ -269,6 +344,7 @@ def run(tier, seed):
         "assumptions": [A_REAL, A_INT, A_LIB, "requires: weights >= 0 (the property's quantifier)",
                         "accessor contracts for W > 0 assume the realizable-weights invariant 0 < W2 <= W^2 <= n*W2, which C17 proves inductive",
                         "collect/extend glue is C20's subject; every chunking/bracketing by the Verus merge-tree lemma",
+                        "WeightedMeanWithError::{add,merge} are proved twice: with the real bodies of WeightedMean / Variance executed, and modularly from their contracts only (via_contracts_of_parts)",
                         "the 8*n*2^-53 relative envelopes are not decided (A-REAL)"],
         "explanation": "rep of (n,S1,S2,W,W2,WX) preserved by add/merge in all emptiness-by-weight cases; a zero-weight observation changes only the unweighted part.",
     }
